@@ -102,6 +102,15 @@ CHECKS = [
      "note": "Trusted: the dictionary model, dill for the round trip, clang sanitizers. White-box step: HeapScheduler._minimal_valid_counter "
              "is preset (never lowered) to 2^32-k to reach the overflow branch. libFuzzer campaigns are pinned by -seed/-runs only approximately; "
              "a saved crashing input is the reproducible unit (replay re-runs it)."},
+    {"id": "C10", "engine": "hypothesis-runner", "design_ref": "DESIGN.md §3 C10",
+     "technique": "property-based testing (Hypothesis) on the real cell taggers / occupancy / factor-type maps against a multiset-partition oracle and a docstring model of factor files (grammar-based file generation)",
+     "text": "(a) Generated boxes, grids, neighbour layers, occupant caps, 1-2 level trees, clustered / face / uniform positions, charge "
+             "filters and sequences of active units (with real extract/insert and occupancy updates in between): the targets of the "
+             "non-nearby family (veto: translated relative cells; bounding: tagger in-states), the nearby family and the surplus family "
+             "must add up, as multisets, to all relevant units except the active one. (b) Generated factor files: tagger in-states == "
+             "index sets containing the active point mass, once per other object if inter-object.",
+     "note": "Trusted: the multiset oracle and the docstring model in vlib/props/C10.py; handlers behind the taggers get a harness "
+             "Estimator. Whole-object motion with point-mass cells is outside the single-active-unit contract and excluded (counted)."},
 ]
 
 _ALL = ["C%02d" % i for i in range(1, 21)]
